@@ -842,7 +842,12 @@ class P(Prop):
     open_statements = ["Track.copy is modelled as the identity on (points, feature table): that the returned track shares no Obs / coordinate object with the network is not a theorem; the harness checks it by moving the points of every returned track (scribble stream) and validating the later answers of the session",
                        "arithmetic: every theorem holds for any addition satisfying WalkAdd (x <= x + w for w >= 0, and + monotone on the right; associativity, commutativity and cancellation are not used, see the R4 example), i.e. for the sums as the code rounds them; that IEEE-754 double addition satisfies WalkAdd is not proved in Lean (Float is opaque) — the float streams run the model at Float bit for bit",
                        "run_routing_backward on flags older than the last modification of the network (old antecedents, new weights / polylines): nothing is stated; proved: the loop ends (mut_never_diverges); what it returns is compared with the model only",
-                       "modifications through Network.simplify / toENUCoords / toGeoCoords (they replace every edge geometry / node coordinate) and routing on a sub_network (a second Network sharing the Node and Edge objects) are not in the model; the library has no call that removes an edge or a node",
+                       "modifications through Network.simplify / toENUCoords / toGeoCoords (they replace every edge geometry / node coordinate) are not in the model; the library has no call that removes an edge or a node",
+                       "families of networks sharing their Node and Edge objects (net.sub_network(s, cut) kept and used next to net, extracts of extracts; kinds fam / fam-ex): there is no Lean definition of the family for paths. "
+                       "The model side runs ONE msession (Model/GraphMut.lean) per network — sub_network being the run_routing_forward(s, cut=cut) it performs on the parent, the extract a Network() to which the kept Edge objects are "
+                       "added in the parent's edge order with the parent's Node objects — and the harness, not Lean, predicts which edges are kept (both ends at distance <= cut; TV.Graph.subEdges / TV.C06 have that in Lean for the distances). "
+                       "That the routing attributes written on the SHARED Node objects by another network's search are unobservable is proved for the labels (TV.C06.family_answers_as_private) and not for antecedent / antecedent_edge; "
+                       "run_routing_backward called when those attributes were last written by another network of the family is run but neither compared nor judged (nothing is stated about it)",
                        "getEdge(i).orientation = x on a built network: proved NOT to be read by routing (orientation_attribute_not_read) — the property read with the current attribute fails there; proposed finding %s (findings/C07.json), its inputs are generated once it is listed" % ORI_FROZEN]
     modelled = ("Network.addNode / addEdge (NODES with first registration winning, EDGES, NEXT_EDGES filled incrementally; proved to give the model's adjacency); "
                 "Network.run_routing_forward (as for C06) with __correctInputNode (node by id / Node object) and __resetFlags on the flags left by earlier searches; "
@@ -852,7 +857,8 @@ class P(Prop):
                 "the Network object as a state machine that is built and MODIFIED by the calls themselves (Model/GraphMut.lean): NODES / EDGES / NEXT_EDGES / edge geometries / node coordinates / "
                 "routing flags (and which nodes carry them) / output_dict as state, addNode, addEdge (also after searches), getEdge(i).weight / .orientation / .geom = ..., getNode(v).coord = ..., "
                 "the forward pass written over NEXT_EDGES[pere] and EDGES[edge_id] as the code has it (weights read at relaxation time, adjacency as addEdge filled it), KeyError / AttributeError of calls "
-                "naming unregistered / never-searched nodes")
+                "naming unregistered / never-searched nodes; "
+                "Network.sub_network (TOPOLOGIC) only as the calls it is made of: run_routing_forward(source, cut=cut) on the parent, then Network() + addEdge(e, e.source, e.target) for the kept edges — one model object per network of the family (see open_statements)")
     trusted = ["Track.copy (copy.deepcopy) is the identity on the model's immutable values",
                "priority_dict is modelled as extract-min by (priority, node id) (C06 proves the explicit heap equal to it)"]
     rule = (("the C06 graph space (all edge lists of length <= 2 on <= 3 nodes in quick, + all 3-edge multisets in thorough; random to 12 nodes / 40 edges, parallel edges of equal and of "
@@ -869,6 +875,9 @@ class P(Prop):
             "(build included) as one sequence of calls and the final content read back through the getters is compared; the oracle keeps its own replay of the content and judges every query against the "
             "content of that moment (geometry chain required whenever the polylines on the route join the positions of that moment); run_routing_backward on flags older than the last modification is "
             "compared with the model only. Orientation assignments on a built network are generated only once the finding %s is listed. "
+            "FAMILIES of networks that share their Node and Edge objects (kinds fam-ex / fam): net.sub_network(s, cut) is called and its result KEPT (up to three extractions, also of extracts), and paths / distances / forward + backward passes are asked on "
+            "all of them in any order — most of the time on the PARENT after an extraction, for pairs whose route runs through extracted edges —, run_routing_backward right after sub_network (the flags it left), the weight of a shared Edge "
+            "object assigned in between; every network is judged on its own content (an extract: the node / edge ids read off the returned object), whatever the other networks were asked in between. "
             "non-trivial = some call returns a path; tags count zero-weight edges, edges traversed against their stored direction, ties, op kinds, kinds of modification, whether a weight assignment changed a queried distance") % ORI_FROZEN)
 
     def setup(self):
@@ -885,6 +894,8 @@ class P(Prop):
              "the same 8067 graphs: a sequence of shortest_path calls on one object in which EVERY ordered pair of queries (s1,t1),(s2,t2) is consecutive (82 calls for 3 nodes)"]
         s.append("the same graphs with at least one edge: every ordered pair, then the weight of one edge is assigned another value of {0,1,2} on the built network, every ordered pair again (%s)"
                  % ("every edge and every other value: 32004 sessions" if tier == "thorough" else "one random edge and value per graph: 8064 sessions"))
+        s.append("families: four 3-node paths (two-way unit, one-way, with a zero-weight and a reverse-stored edge, with a long parallel chord) as network A, B = A.sub_network(s0, c0) kept, for every s0 and c0 in {0, 1, none}: "
+                 "every ordered pair by shortest_path on A, on B, on A again (36 families)")
         if tier == "thorough":
             s.append("all multisets of 3 edges on 1..3 nodes over the same alphabet (100482 multigraphs), edge / node insertion order shuffled, one random geometry each")
         return s
@@ -1199,6 +1210,12 @@ class P(Prop):
                 trk = net.run_routing_backward(arg(op[1]))
             except AttributeError:
                 return {"op": "B", "err": "attr"}
+            except KeyError:
+                if not case.get("fam"):
+                    raise
+                # (family) the antecedents on the shared Node objects were written by a search of ANOTHER network and name
+                # an edge this network does not hold: a situation nothing is stated about (`skip` of fam_split)
+                return {"op": "B", "err": "key"}
             return dict(self.render(net, case, trk, idx(op[1]), nid, inv, einv), op="B")
         kw = {}
         if op[3] != "none":
